@@ -1,6 +1,10 @@
 """Fixed case counts per tier (counts, not wall budgets: one seed explores the same cases)."""
 
 TIERS = {
+    "C04": {
+        "quick": {"cases": 120000, "m_seeded": 2, "flip_n": 8, "wall": 600, "echo": 48},
+        "thorough": {"cases": 1500000, "m_seeded": 10, "flip_n": 24, "wall": 7200, "echo": 256},
+    },
     "C01": {
         "quick": {"cases": 30000, "m_seeded": 3, "flip_n": 12, "wall": 600, "echo": 48},
         "thorough": {"cases": 150000, "m_seeded": 16, "flip_n": 24, "wall": 7200, "echo": 256},
@@ -42,6 +46,21 @@ def _faults_c01(wstats, clock, probes, sites):
 
 
 META = {
+    "C04": {
+        "rule": "cases = (schema spec S, plain value v) with v = witness | partial dict of it at any depth | perturbed "
+                "witness | unrelated value; R = S % v through the public operator; each R explored under draw "
+                "schedules (lo, hi, alt, single flips, seeded, mixed). evaluations = substitute + fake(R) executions "
+                "(each followed by the carries oracle and up to 3 single-position perturbation probes). distinct+"
+                "nontrivial = distinct (shape of S, kind of v, set of (draw site, selector) fired) among cases where "
+                "substitution succeeded.",
+        "real_vs_stub": {"real": REAL, "stub": STUB},
+        "assumptions": [
+            "cases where S % v raises are counted and ignored (C04 speaks only of success)",
+            "a fake(R) failure whose culprit node occurs unchanged in S is attributed to S (C01), not to substitution",
+            "perturbations are far outside validator tolerances (other kind, |delta| >= 1 + |x|, other length / key set)",
+        ],
+        "fault_kinds": _faults_c01,
+    },
     "C01": {
         "rule": "cases = hereditarily satisfiable schema specs (witness-first, swarm knobs, 13 types + alias, "
                 "+ | % make_required) x generation route x draw schedules (lo, hi, alt, single flips, seeded, "
